@@ -659,6 +659,7 @@ func (bc *boundsCtx) noWrap(out lin, bits int, uns bool) bool {
 			return false
 		}
 		if bits >= 63 {
+			// the upper bound is known (upper() saturates below 2^61): no wrap past 2^64
 			return true
 		}
 		return hi <= int64(1)<<uint(bits)-1
@@ -1893,7 +1894,9 @@ func (bc *boundsCtx) fitsAt(out lin, bits int, uns bool, def ssa.Instruction) bo
 	var lo, hi int64
 	switch {
 	case uns && bits >= 63:
-		lo, hi = 0, satMax
+		// a sum with a full-range 64-bit operand can wrap past 2^64: it fits only if it is provably
+		// below 2^60
+		lo, hi = 0, int64(1)<<60
 	case uns:
 		lo, hi = 0, int64(1)<<uint(bits)-1
 	case bits >= 63:
